@@ -44,6 +44,13 @@ func pssSign(sk *rsa.PrivateKey, input, salt []byte) []byte {
 	return sig
 }
 
+// long-lived decode targets of the issuer side (one per token type for the whole run)
+var (
+	c01srv1 = &type1.BasicPrivateTokenRequest{}
+	c01srv2 = &type2.BasicPublicTokenRequest{}
+	c01srv5 = &type5.BatchedPrivateTokenRequest{}
+)
+
 func init() {
 	props["C01"] = runC01
 	props["C02"] = runC02
@@ -66,7 +73,8 @@ func init() {
 			return "err-create"
 		}
 		wire := st.Request().Marshal()
-		rq := &type1.BasicPrivateTokenRequest{}
+		// the issuer decodes into one long-lived request value, as a server reusing its buffers would
+		rq := c01srv1
 		if !rq.Unmarshal(wire) {
 			return "err-unmarshal"
 		}
@@ -101,7 +109,7 @@ func init() {
 			return "err-create"
 		}
 		wire := st.Request().Marshal()
-		rq := &type2.BasicPublicTokenRequest{}
+		rq := c01srv2
 		if !rq.Unmarshal(wire) {
 			return "err-unmarshal"
 		}
@@ -135,7 +143,7 @@ func init() {
 			return "err-create"
 		}
 		wire := st.Request().Marshal()
-		rq := &type5.BatchedPrivateTokenRequest{}
+		rq := c01srv5
 		if !rq.Unmarshal(wire) {
 			return "err-unmarshal"
 		}
@@ -613,6 +621,76 @@ func runC02(c *Ctx) {
 	probe(5, "reversed", mk(els[2], els[1], els[0]), true)
 	probe(5, "replaced-by-foreign", mk(els[0], els[1], w2.resp["resp5-otherkey"][vn:vn+32]), true)
 	probe(5, "empty", mk(), true)
+
+	// ---- the pinned key is the key object given at creation, not whatever a key id was first used with ----
+	// two issuers whose requests carry the same (caller-supplied) key id, one after the other in one process
+	type pinParty struct {
+		name   string
+		mk     func(nonce []byte) (fin func(resp []byte) ([]tokens.Token, error), req any)
+		eval   func(req any) ([]byte, error)
+		verify func(tokens.Token) bool
+	}
+	for round := 0; round < 2; round++ {
+		kid := r.Bytes(32)
+		ch := r.Bytes(12)
+		mkParties := func(tag string) []pinParty {
+			i1 := type1.NewBasicPrivateIssuer(oprfKey(oprf.SuiteP384, []byte("c02-pin-1"+tag)))
+			i5 := type5.NewBatchedPrivateIssuer(oprfKey(oprf.SuiteRistretto255, []byte("c02-pin-5"+tag)))
+			i2 := type2.NewBasicPublicIssuer(rsaKey(map[string]int{"A": 0, "B": 1}[tag]))
+			return []pinParty{
+				{"type1", func(nonce []byte) (func([]byte) ([]tokens.Token, error), any) {
+					st, err := type1.NewBasicPrivateClient().CreateTokenRequest(ch, nonce, kid, i1.TokenKey())
+					must(err)
+					return func(resp []byte) ([]tokens.Token, error) { t, e := st.FinalizeToken(resp); return []tokens.Token{t}, e }, st.Request()
+				}, func(q any) ([]byte, error) { return i1.Evaluate(q.(*type1.BasicPrivateTokenRequest)) }, func(t tokens.Token) bool { return i1.Verify(t) == nil }},
+				{"type2", func(nonce []byte) (func([]byte) ([]tokens.Token, error), any) {
+					st, err := type2.NewBasicPublicClient().CreateTokenRequest(ch, nonce, kid, i2.TokenKey())
+					must(err)
+					return func(resp []byte) ([]tokens.Token, error) { t, e := st.FinalizeToken(resp); return []tokens.Token{t}, e }, st.Request()
+				}, func(q any) ([]byte, error) { return i2.Evaluate(q.(*type2.BasicPublicTokenRequest)) },
+					func(t tokens.Token) bool { return pssValid(i2.TokenKey(), t.AuthenticatorInput(), t.Authenticator) }},
+				{"type5", func(nonce []byte) (func([]byte) ([]tokens.Token, error), any) {
+					st, err := type5.NewBatchedPrivateClient().CreateTokenRequest(ch, [][]byte{nonce}, kid, i5.TokenKey())
+					must(err)
+					return st.FinalizeTokens, st.Request()
+				}, func(q any) ([]byte, error) { return i5.Evaluate(q.(*type5.BatchedPrivateTokenRequest)) }, func(t tokens.Token) bool { return i5.Verify(t) == nil }},
+			}
+		}
+		A, B := mkParties("A"), mkParties("B")
+		for k := range A {
+			name := A[k].name
+			out := c.Op(fmt.Sprintf("c03.probe c02.pinned-key %s %s", name, hx(kid)), func() string {
+				nA, nB := r.Bytes(32), r.Bytes(32)
+				finA, reqA := A[k].mk(nA)
+				respA, err := A[k].eval(reqA)
+				must(err)
+				ta, err := finA(respA)
+				if err != nil || !A[k].verify(ta[0]) || !bytes.Equal(ta[0].Nonce, nA) {
+					return "first key: honest response rejected or token invalid"
+				}
+				// a second key under the same key id: its honest response finalizes to a token valid under it …
+				finB, reqB := B[k].mk(nB)
+				respB, err := B[k].eval(reqB)
+				must(err)
+				tb, err := finB(respB)
+				if err != nil {
+					return "second key with the same key id: honest response rejected"
+				}
+				if !B[k].verify(tb[0]) || !bytes.Equal(tb[0].Nonce, nB) || !bytes.Equal(tb[0].KeyID, kid) {
+					return "second key with the same key id: the returned token does not verify under the key the request was created for"
+				}
+				// … and a response to that request computed by the first issuer (same key id, so it serves it) does not
+				if respBA, err := A[k].eval(reqB); err == nil {
+					if tx, err := finB(respBA); err == nil && !B[k].verify(tx[0]) {
+						return "a response computed under another key with the same key id was finalized into a token that does not verify under the pinned key"
+					}
+				}
+				return "-"
+			})
+			c.Count("pinned-key:" + name)
+			c.Direct(out == "-", "finalization is not bound to the key the request was created for: "+out, map[string]any{"type": name, "keyId": hx(kid), "panic": firstLines(lastPanic, 6)})
+		}
+	}
 }
 
 func c02Direct(c *Ctx, w *c03World, ty int, kind string, resp []byte, out string, mustReject bool, ti []byte) {
